@@ -310,8 +310,56 @@ def anc_session(cs):
     return Session(stmts, src_step, ('num', sk, Fraction(X)), checks, info)
 
 
+# ------------------------------------------------------------------ float -> integer far beyond 2^53 (MC_C12p)
+def pow2_family(rep):
+    """+-2^e in f32 / f64 converted to every integer kind, as a scalar and inside matrices: truncate + clamp, decided symbolically"""
+    t = tlc.run("MC_C12p", "MC_C12p.cfg", workers=4, timeout=600)
+    if t.violations or not t.ok:
+        rep.fail("C12/model", "TLC reported a violation on the symbolic float->integer model: " + "; ".join(t.errors[:3]), {"log": t.log})
+    cases = sorted(t.cases, key=lambda c: (c["src"], c["dst"], c["form"], c["e"], c["neg"]))
+    reqs = []
+    for cs in cases:
+        e, sk, dk = cs["e"], cs["src"], cs["dst"]
+        q, rem = divmod(e, 32)
+        st = [f"p<{sk}> := 4294967296", f"r<{sk}> := {2 ** rem}", f"t<{sk}> := 3"]
+        prod = " * ".join(["p"] * q + ["r"])
+        st.append(f"s := {'-(' + prod + ')' if cs['neg'] else prod}")
+        if cs["form"] == "scalar": st.append(f"y<{dk}> := s")
+        else:
+            st.append({"row": "m := [s t]", "col": "m := [s; t]", "mat": "m := [s t; t s]"}[cs["form"]])
+            st.append(f"y<[{dk}]> := m")
+        reqs.append({"id": len(reqs), "mode": "session", "stmts": st, "opts": {}})
+    outs = execpool.run_requests(reqs, nworkers=16, timeout=120)
+    ok = 0; unb = 0
+    for cs, req, (resp, oc) in zip(cases, reqs, outs):
+        sk, dk, form = cs["src"], cs["dst"], cs["form"]
+        sig = f"C12/float-to-int/{sk}>{dk}/{form}/{cs['res']}"
+        replay = {"stmts": req["stmts"], "case": cs}
+        if oc != "ok" or "steps" not in (resp or {}):
+            rep.fail(sig + "/host-" + oc, f"{req['stmts']} -> interpreter process {oc}", replay); continue
+        steps = resp["steps"]
+        X = (-1 if cs["neg"] else 1) * 2 ** cs["e"]
+        src = steps[3]
+        if any(x.get("r") != "ok" for x in steps[:-1]) or absval.absval(src["v"]) != ('num', sk, Fraction(X)):
+            unb += 1; continue                     # the source value could not be built exactly: not judged
+        want = {"exact": X, "max": absval.kind_max(dk), "min": absval.kind_min(dk), "zero": 0}[cs["res"]]
+        last = steps[-1]
+        if last.get("r") != "ok":
+            rep.fail(sig + "/rejected", f"{req['stmts']}: rejected ({last.get('class')}), expected {want} (truncate and clamp)", replay); continue
+        got = absval.absval(last["v"])
+        w1 = ('num', dk, Fraction(want)); w3 = ('num', dk, Fraction(3))
+        wantv = {"scalar": w1, "row": ('mat', dk, 1, 2, (w1, w3)), "col": ('mat', dk, 2, 1, (w1, w3)), "mat": ('mat', dk, 2, 2, (w1, w3, w3, w1))}[form]
+        if got != wantv:
+            rep.fail(sig + "/wrong-value", f"{req['stmts']} = {absval.short(got)}, expected {absval.short(wantv)}", replay); continue
+        ok += 1
+    log(f"[C12] float -> integer at powers of two: {len(cases)} cases, {ok} matched, {unb} sources not buildable")
+    rep.cov.update({"pow2_cases": len(cases), "pow2_matched": ok, "pow2_unbuildable": unb})
+    return len(cases)
+
+
 # ------------------------------------------------------------------ main
 def run(rep, tier, seed):
+    npow2 = pow2_family(rep)
     quick = tier == "quick"
     cfg = "MC_C12_quick.cfg" if quick else "MC_C12_thorough.cfg"
     t = tlc.run("MC_C12", cfg, workers=16, timeout=3000)
